@@ -1075,7 +1075,7 @@ def build_scenario(ctx, rng, idx, spec=None):
         for _ in range(nreaders):
             ops = []
             for _ in range(rng.choice([1, 1, 2, 3])):
-                k = rng.choice(["get", "get", "get", "in", "in", "iter"])
+                k = rng.choice(["get", "get", "get", "in", "in", "iter", "iter", "subset"])
                 ops.append((k, None if k == "iter" else rng.choice(targets)))
             readers.append(ops)
             warm.append(rng.choice(["cold", "cold", "listed", "loaded"]))
@@ -1120,6 +1120,9 @@ class _Run:
                         rec["res"] = st.get_raw(h.encode())
                     elif k == "in":
                         rec["res"] = h.encode() in st
+                    elif k == "subset":
+                        got = list(st.iterobjects_subset([h.encode()]))
+                        rec["res"] = (got[0].type_num, got[0].as_raw_string()) if got else "KeyError"
                     else:
                         rec["res"] = sorted(x.decode() for x in st)
                 except KeyError:
@@ -1145,9 +1148,9 @@ class _Run:
                 if sc.packer == "gc0":
                     garbage_collect(repo, grace_period=0)
                     return None
-                if sc.packer == "repack3":
+                if sc.packer == "repack6":
                     from dulwich.objects import Blob
-                    for i in range(3):
+                    for i in range(6):
                         repo.object_store.add_object(Blob.from_string(b"generation %d\n" % i))
                         repo.object_store.repack()
                     return None
@@ -1272,7 +1275,7 @@ def _nums(mapping, names):
     return [mapping[n] for n in names]
 
 
-def _model_lines_for_run(run: _Run, sc: Scenario, maxatt: int, reprobe: bool):
+def _model_lines_for_run(run: _Run, sc: Scenario, maxatt: int, consts):
     """Driver lines + expected (real) outputs for every lookup of every reader of a finished run."""
     # global numbering: packs by sorted name, objects by sorted id
     pack_names = set()
@@ -1317,6 +1320,8 @@ def _model_lines_for_run(run: _Run, sc: Scenario, maxatt: int, reprobe: bool):
         for lk in lks:
             mine = steps[lk["begin"]:lk["end"]]
             toks, fss = [], []
+            if lk["kind"] == "subset":
+                continue   # iterobjects_subset: direct oracle only, not modelled
             if lk["kind"] in ("get", "in"):
                 for s in mine:
                     m = _PACKFILE.fullmatch(s["path"])
@@ -1335,6 +1340,7 @@ def _model_lines_for_run(run: _Run, sc: Scenario, maxatt: int, reprobe: bool):
                 res = "found" if (lk["res"] is True or isinstance(lk["res"], tuple)) else "missing"
                 toks.append(res)
                 pre = lk["pre"]
+                reprobe = consts["reprobe"] if lk["kind"] == "get" else consts["reprobe_in"]
                 line = " ".join(["c10.lookup", lk["kind"], str(onum[lk["x"]]), str(maxatt), "1" if reprobe else "0", "-",
                                  pk_arg, _enc_ids(_nums(pnum, pre[0])), _enc_ids(_nums(pnum, pre[1])),
                                  _enc_ids(_nums(pnum, pre[2]))] + fss)
@@ -1365,7 +1371,8 @@ def _model_lines_for_run(run: _Run, sc: Scenario, maxatt: int, reprobe: bool):
                     # the loose listing is one atomic step of the model: give it what the per-directory listings saw
                     fss[loose_fs] = "/".join(["-", "-", _enc_ids(sorted(onum[h] for h in loose_union))])
                 pre = lk["pre"]
-                line = " ".join(["c10.iter", "-", pk_arg, _enc_ids(_nums(pnum, pre[0])), _enc_ids(_nums(pnum, pre[1]))] + fss)
+                line = " ".join(["c10.iter", "1" if consts["iter_rescan"] else "0", "-", pk_arg,
+                                 _enc_ids(_nums(pnum, pre[0])), _enc_ids(_nums(pnum, pre[1]))] + fss)
                 post = lk["post"]
                 res = lk["res"] if isinstance(lk["res"], list) else []
                 want = ";".join(toks) + f"|ids={_enc_ids(sorted({onum[h] for h in res}))}" \
@@ -1386,7 +1393,7 @@ def _oracle_run(ctx, stream, sc: Scenario, run: _Run, schedule, start_packed: se
                     "reader": r, "lookup": li, "op": lk["kind"], "object": lk["x"],
                     "layout": getattr(sc, "layout", None),
                     "reader_events": [(s["call"], s["path"], s.get("outcome")) for s in steps[lk["begin"]:lk["end"]]]}
-            if lk["kind"] in ("get", "in"):
+            if lk["kind"] in ("get", "in", "subset"):
                 x = lk["x"]
                 if x not in sc.reach:
                     continue
@@ -1409,12 +1416,14 @@ def _oracle_run(ctx, stream, sc: Scenario, run: _Run, schedule, start_packed: se
                 n_gone = len({s["path"] for s in mine if s.get("outcome") != "ok" and _PACKFILE.fullmatch(s["path"])})
                 n_scan = sum(1 for s in mine if s["call"] == "listdir" and s["path"] == "objects/pack")
                 cls = CLS_LOOKUP_MOVE if moved else None
-                if not moved and sc.packer == "repack3" and n_scan >= consts_maxatt(ctx) and \
-                        n_gone + (1 if lk["pre"][0] == [] else 0) >= consts_maxatt(ctx):
-                    # every one of the N passes met a pack that a NEW repack had just removed (or started from an empty cache)
+                need = consts_maxatt(ctx) * (2 if ctx._c10_consts["reprobe" if lk["kind"] == "get" else "reprobe_in"] else 1)
+                if not moved and sc.packer == "repack6" and n_scan >= need and \
+                        n_gone + (1 if lk["pre"][0] == [] else 0) >= need:
+                    # every pass of every look at the packs met a pack that a NEW repack had just removed (or started from an
+                    # empty cache)
                     cls = CLS_RETRY
                 ctx.oracle_fail(stream, case,
-                                f"{'store[id]' if lk['kind'] == 'get' else 'id in store'} reported {x[:10]} missing while "
+                                f"{ {'get': 'store[id]', 'in': 'id in store', 'subset': 'iterobjects_subset([id])'}[lk['kind']]} reported {x[:10]} missing while "
                                 f"{sc.packer} ran; the object exists throughout ("
                                 f"{'loose, then packed' if moved else 'in a pack throughout'})", cls)
                 n_fail += 1
@@ -1465,7 +1474,9 @@ def _absent_steps(run, mine, ids):
 def consts_maxatt(ctx):
     if not hasattr(ctx, "_c10_consts"):
         c = ctx.driver.batch(["c10.consts"])[0].split()
-        ctx._c10_consts = {"maxatt": int(c[0]), "default_grace": int(c[1]), "reprobe": c[4] == "1"}
+        ctx._c10_consts = {"maxatt": int(c[0]), "default_grace": int(c[1]), "reprobe": c[4] == "1",
+                           "reprobe_in": c[5] == "1", "iter_rescan": c[6] == "1", "max_mtime": c[7] == "1",
+                           "refresh_existing": c[8] == "1"}
     return ctx._c10_consts["maxatt"]
 
 
@@ -1542,7 +1553,7 @@ def run_scenario(ctx, sc: Scenario, idx, stream, max_pre, cap, nrandom, consts, 
             nf = _oracle_run(ctx, stream, sc, run, schedule, start_packed, start_loose)
             npre = sum(1 for a, b in zip(run.released, run.released[1:]) if a != b)
             ctx.count(stream, (idx, key, sc.packer), True, f"{sc.packer}:{'+'.join(k for ops in sc.readers for k, _ in ops)}")
-            for line, want, r, lk in _model_lines_for_run(run, sc, consts["maxatt"], consts["reprobe"]):
+            for line, want, r, lk in _model_lines_for_run(run, sc, consts["maxatt"], consts):
                 lines.append(line)
                 wants.append(want)
                 metas.append({"scenario": sc.describe(), "schedule": list(schedule), "reader": r, "kind": lk["kind"],
@@ -1585,21 +1596,36 @@ def _stream_sched(ctx, nscen, max_pre, cap, nrandom, stream="sched", first_idx=0
     ctx.extra_cov["schedules_replayed"] = ctx.extra_cov.get("schedules_replayed", 0) + total
 
 
-RETRY_SPEC = {"packs": [["b0", "b1", "t", "c"]], "loose": [], "packer": "repack3", "readers": [[("get", "b0")]],
+RETRY_SPEC = {"packs": [["b0", "b1", "t", "c"]], "loose": [], "packer": "repack6", "readers": [[("get", "b0")]],
               "warm": ["cold"]}
 
 
+def _retry_witness(g, reprobe, maxatt=3):
+    """Block schedule on which every pass of a cold store[id] meets a pack that the next repack has just removed.
+    g = number of significant calls of one add_object + repack generation."""
+    gen = ["P"] * g
+    sch = ["R1"] + gen                       # scan (sees pack 1) | generation 1
+    for _ in range(maxatt - 2):
+        sch += ["R1", "R1"] + gen            # index gone, scan | next generation
+    sch += ["R1", "R1"]                      # index gone, scan: passes used up
+    sch += ["R1"]                            # loose probe
+    if reprobe:
+        for _ in range(maxatt):
+            sch += gen + ["R1", "R1"]        # generation | index gone, scan
+    return sch + ["R1"] * 4
+
+
 def _stream_retry_bound(ctx, stream="sched.retry"):
-    """Targeted: one lookup against three successive repacks (each preceded by a new loose object)."""
+    """Targeted: one lookup against six successive repacks (each preceded by a new loose object)."""
     sc = _scenario(ctx, 900000, RETRY_SPEC)
     try:
         work = ctx.scratch / "sc-retry-work"
         lens = _block_lengths(ctx, sc, work)
         # P's blocks: per generation: addLoose, installData, installIdx, delLoose, removeData, removeIdx  (6 each)
-        g = max(1, (lens["P"] - 1) // 3)
-        witness = ["R1"] + ["P"] * g + ["R1"] + ["P"] * g + ["R1"] + ["R1"] + ["P"] * g + ["R1"] * 6
-        near = [["R1"] + ["P"] * g + ["R1"] * 3 + ["P"] * (2 * g) + ["R1"] * 6,
-                ["R1"] + ["P"] * (2 * g) + ["R1"] * 2 + ["P"] * g + ["R1"] * 6]
+        g = max(1, (lens["P"] - 1) // 6)
+        c = _consts(ctx)
+        witness = _retry_witness(g, c["reprobe"], c["maxatt"])
+        near = [_retry_witness(g, False, c["maxatt"]), ["R1"] + ["P"] * (2 * g) + ["R1"] * 3 + ["P"] * (3 * g) + ["R1"] * 8]
         n = run_scenario(ctx, sc, 900000, stream, 0, 0, ctx.budget(20), _consts(ctx), first=[witness] + near)
         ctx.extra_cov["schedules_replayed"] = ctx.extra_cov.get("schedules_replayed", 0) + n
     finally:
@@ -1637,7 +1663,7 @@ def _stream_git_repack(ctx, nscen, stream="sched.git", first_idx=500000):
                     _oracle_run(ctx, stream, sc, run, schedule, start_packed, start_loose)
                     ctx.count(stream, (idx, k), True, "+".join(kk for ops in sc.readers for kk, _ in ops))
                     total += 1
-                    for line, want, r, lk in _model_lines_for_run(run, sc, _consts(ctx)["maxatt"], _consts(ctx)["reprobe"]):
+                    for line, want, r, lk in _model_lines_for_run(run, sc, _consts(ctx)["maxatt"], _consts(ctx)):
                         lines.append(line)
                         wants.append(want)
                         metas.append({"scenario": sc.describe(), "git_repack_before_block": k, "reader": r,
